@@ -29,13 +29,36 @@
           (stable sort, take k), and the result is printed raw, in order (falls back to the children's
           models when a child was not asked).
      O tag common                 declare WordMetadata::common of one interned metadata tag           -> "O"
+     A name d | x                 the automaton stream of an FstDictionary: C15Automaton.la_search over its index
+                                  for the string x and bound d                            -> "A i:dist i:dist .."
      S name d k | q | lq | impl   suggest_correct_spelling(q, k, d, dictionary) (spell/mod.rs); `impl` is the
                                   implementation's own fuzzy_match result for the same arguments (as in Z):
         mutable dictionary: the whole composition in the model (C15Suggest.suggest over the model's fuzzy search);
         FST / merged dictionary: order_suggestions as a function of what fuzzy_match returned (that result is
           validated by the Z case of the same query)                              -> "S <n>: w1, w2, .." in order
-   an entry e is "meta c1 c2 .."; q, lq are code points. *)
+   an entry e is "meta c1 c2 .."; q, lq are code points.
+
+   SHARDING (no model code involved).  The case file is a sequence of UNITS: a run of definition lines (M K F G X and
+   the W lines that follow them) or a QUERY BLOCK (consecutive C / Z / S lines with the same query text — the lines the
+   harness emits for one query of a scenario; A lines are stateless and stay in the unit they occur in).  Dictionaries have run-wide unique names and are registered LAZILY (built
+   at first use), T / O lines are executed by everybody, and the only state a query line reads beside the dictionaries
+   — the implementation's / model's last fuzzy result per dictionary — is reset at the start of every query block, so
+   the output of a unit is a function of (T/O lines so far, the definitions it names, the unit's own lines).  Units can
+   therefore be computed by different processes: without `--worker` the driver copies stdin to a temporary file, starts
+   C15_SHARDS (default min(12, nproc)) copies of itself with `--worker i n file` through /bin/sh, each of which prints
+   "lineno<TAB>result" for the units it owns (unit counter mod n; units on a bulk-loaded — curated — dictionary go to
+   the first C15_HEAVY_SHARDS (default 2n/3) workers only, 130 000 entries cost memory), and merges the outputs by line
+   number.  C15_SHARDS=1 runs everything in this process; both modes print the same bytes. *)
 let dbg = Array.length Sys.argv > 1 && Sys.argv.(1) = "debug"
+
+(* code points are shared: one extracted N per code point (the curated list would otherwise carry a binary numeral
+   per character occurrence) *)
+let n_memo : (int, n) Hashtbl.t = Hashtbl.create 4096
+let n_of_int (i : int) : n =
+  match Hashtbl.find_opt n_memo i with
+  | Some v -> v
+  | None -> let v = n_of_int i in Hashtbl.replace n_memo i v; v
+let text_of_line (s : string) : n list = List.map n_of_int (ints_of_line s)
 
 let utab : (int, bool * int list) Hashtbl.t = Hashtbl.create 1024
 let is_lower (c : n) : bool = match Hashtbl.find_opt utab (int_of_n c) with Some (b, _) -> b | None -> false
@@ -45,8 +68,11 @@ let lower (c : n) : n list =
 let common_tab : (int, bool) Hashtbl.t = Hashtbl.create 64
 let is_common (m : nat) : bool = match Hashtbl.find_opt common_tab (int_of_nat m) with Some b -> b | None -> false
 
-type kind = KM | KF of fst_dict | KX of string list
-let dicts : (string, kind * dict_ops) Hashtbl.t = Hashtbl.create 64
+(* KF: the dictionary and the model of fst::Map::search_with_state + levenshtein DFA its fuzzy search runs on *)
+type kind = KM | KF of fst_dict * ((n list * nat) list -> n list -> nat -> (nat * nat) list) | KX of string list
+let dicts : (string, (kind * dict_ops) Lazy.t) Hashtbl.t = Hashtbl.create 64
+(* names of bulk-loaded dictionaries and of merged dictionaries over one (scheduling only) *)
+let heavy : (string, unit) Hashtbl.t = Hashtbl.create 16
 (* (name) -> (query key, implementation's result) *)
 let last : (string, string * fres list res) Hashtbl.t = Hashtbl.create 64
 (* (name) -> (query key, the MODEL's fuzzy result of a mutable dictionary): the S case that follows a Z case
@@ -118,50 +144,54 @@ let canon_fuzzy (k : int) (r : fres list) : string =
   end
 let raw_fuzzy (r : fres list) : string = String.trim ("R " ^ String.concat ", " (List.map (fun x -> show_entry (tuple_of x)) r))
 
-let get name = match Hashtbl.find_opt dicts name with Some d -> d | None -> failwith ("unknown dictionary " ^ name)
+let get name = match Hashtbl.find_opt dicts name with Some d -> Lazy.force d | None -> failwith ("unknown dictionary " ^ name)
 let direct_map ws = List.map (fun (w, md) -> (word_id is_lower lower w, { e_meta = md; e_canon = w })) ws
 
-let () =
-  iter_lines (fun l ->
-    if String.length l < 1 then print_newline () else
+(* one case line -> its result line.  Definition lines register the dictionary lazily; `force` = this process owns the
+   line and has to print the word count *)
+let process (l : string) (force : bool) : string =
+    if String.length l < 1 then "" else
     let body = if String.length l > 1 then String.sub l 1 (String.length l - 1) else "" in
     let parts = split_bar body in
+    let define name (mk : unit -> kind * dict_ops) : string =
+      let z = lazy (mk ()) in
+      Hashtbl.replace dicts name z;
+      if force then Printf.sprintf "n %d" (int_of_nat (snd (Lazy.force z)).d_count) else "" in
     try
       match l.[0], parts with
       | 'T', [t] ->
           (match ints_of_line t with
-           | c :: b :: ls -> Hashtbl.replace utab c (b <> 0, ls); print_endline "T"
-           | _ -> print_endline "?")
+           | c :: b :: ls -> Hashtbl.replace utab c (b <> 0, ls); "T"
+           | _ -> "?")
       | 'M', [name; es] ->
-          let m = mut_extend is_lower lower [] (parse_entries es) in
-          let ops = mut_ops is_lower lower dbg m in
-          Hashtbl.replace dicts name (KM, ops);
-          Printf.printf "n %d\n" (int_of_nat ops.d_count)
+          define name (fun () ->
+            let m = mut_extend is_lower lower [] (parse_entries es) in
+            (KM, mut_ops is_lower lower dbg m))
       | 'K', [name; es] ->
-          let ops = mut_ops is_lower lower dbg (direct_map (parse_entries es)) in
-          Hashtbl.replace dicts name (KM, ops);
-          Printf.printf "n %d\n" (int_of_nat ops.d_count)
+          Hashtbl.replace heavy name ();
+          define name (fun () -> (KM, mut_ops is_lower lower dbg (direct_map (parse_entries es))))
       | 'F', [name; es] ->
-          let f = fst_new is_lower lower (parse_entries es) in
-          let ops = fst_ops is_lower lower stream f in
-          Hashtbl.replace dicts name (KF f, ops);
-          Printf.printf "n %d\n" (int_of_nat ops.d_count)
+          define name (fun () ->
+            (* FstDictionary::new: the fuzzy search runs on the automaton product itself (C15Automaton.la_search) *)
+            let f = fst_new is_lower lower (parse_entries es) in
+            (KF (f, la_search), fst_ops is_lower lower la_search f))
       | 'G', [name; es] ->
-          let ws = parse_entries es in
-          if not (adj_sorted ws) then failwith "G: entries not sorted";
-          let f = { f_full = direct_map ws; f_words = ws } in
-          let ops = fst_ops is_lower lower stream f in
-          Hashtbl.replace dicts name (KF f, ops);
-          Printf.printf "n %d\n" (int_of_nat ops.d_count)
+          Hashtbl.replace heavy name ();
+          define name (fun () ->
+            let ws = parse_entries es in
+            if not (adj_sorted ws) then failwith "G: entries not sorted";
+            let f = { f_full = direct_map ws; f_words = ws } in
+            (* the curated list: the length-prefiltered contract stream (= la_search: C15_automaton_search,
+               C15_driver_shortcuts); la_search itself runs on it in the A cases *)
+            (KF (f, stream), fst_ops is_lower lower stream f))
       | 'X', [name; cs] ->
           let names = words cs in
-          let ops = merged_ops (List.map (fun c -> snd (get c)) names) in
-          Hashtbl.replace dicts name (KX names, ops);
-          Printf.printf "n %d\n" (int_of_nat ops.d_count)
+          if List.exists (Hashtbl.mem heavy) names then Hashtbl.replace heavy name ();
+          define name (fun () -> (KX names, merged_ops (List.map (fun c -> snd (get c)) names)))
       | 'C', [name; q] ->
           let d = snd (get (String.trim name)) in
           let q = text_of_line q in
-          Printf.printf "c=%s e=%s m=%s k=%s i=%s\n" (b2s (d.d_contains q)) (b2s (d.d_exact q))
+          Printf.sprintf "c=%s e=%s m=%s k=%s i=%s" (b2s (d.d_contains q)) (b2s (d.d_exact q))
             (opt (fun m -> string_of_int (int_of_nat m)) (d.d_meta q)) (opt cps (d.d_canon q))
             (opt cps (d.d_from_id (word_id is_lower lower q)))
       | 'Z', [hd; q; lq; impl] ->
@@ -181,18 +211,18 @@ let () =
                     let mr = d.d_fuzzy qt lqt dn kn in
                     Hashtbl.replace last_model name (key, mr);
                     (match mr with
-                     | Panic w -> print_endline ("P " ^ panic_name w)
-                     | Ok r -> print_endline (raw_fuzzy r))
-                | KF f ->
+                     | Panic w -> "P " ^ panic_name w
+                     | Ok r -> raw_fuzzy r)
+                | KF (f, stream) ->
                     let model = d.d_fuzzy qt lqt dn kn in
                     (match model, impl_r with
                      | Ok mr, Some (Ok ir) ->
                          (match fst_merged stream f (normalized qt) lqt dn with
                           | Ok merged when fst_admissible merged kn ir ->
-                              if canon_fuzzy k mr = canon_fuzzy k ir then print_endline (canon_fuzzy k mr)
-                              else print_endline (canon_fuzzy k ir)
-                          | _ -> print_endline ("NOT-ADMISSIBLE " ^ canon_fuzzy k mr))
-                     | _, _ -> print_endline (show_canon model))
+                              if canon_fuzzy k mr = canon_fuzzy k ir then canon_fuzzy k mr
+                              else canon_fuzzy k ir
+                          | _ -> "NOT-ADMISSIBLE " ^ canon_fuzzy k mr)
+                     | _, _ -> show_canon model)
                 | KX names ->
                     let shadow c =
                       let (_, ops) = get c in
@@ -200,13 +230,13 @@ let () =
                       | Some (key', r) when key' = key -> { ops with d_fuzzy = (fun _ _ _ _ -> r) }
                       | _ -> ops in
                     (match (merged_ops (List.map shadow names)).d_fuzzy qt lqt dn kn with
-                     | Panic w -> print_endline ("P " ^ panic_name w)
-                     | Ok r -> print_endline (raw_fuzzy r)))
-           | _ -> print_endline "?")
+                     | Panic w -> "P " ^ panic_name w
+                     | Ok r -> raw_fuzzy r))
+           | _ -> "?")
       | 'O', [t] ->
           (match ints_of_line t with
-           | [tag; c] -> Hashtbl.replace common_tab tag (c <> 0); print_endline "O"
-           | _ -> print_endline "?")
+           | [tag; c] -> Hashtbl.replace common_tab tag (c <> 0); "O"
+           | _ -> "?")
       | 'S', [hd; q; lq; impl] ->
           (match words hd with
            | [name; dd; kk] ->
@@ -227,12 +257,174 @@ let () =
                       | Some (Panic w) -> Panic w
                       | None -> failwith "S: unreadable implementation result") in
                (match r with
-                | Panic w -> print_endline ("P " ^ panic_name w)
-                | Ok ws -> print_endline (String.trim (show ws)))
-           | _ -> print_endline "?")
+                | Panic w -> "P " ^ panic_name w
+                | Ok ws -> String.trim (show ws))
+           | _ -> "?")
+      | 'A', [hd; x] ->
+          (* the stream of fst::Map::search_with_state(levenshtein DFA of x, bound d) over the dictionary's index,
+             by the automaton product *)
+          (match words hd with
+           | [name; dd] ->
+               (match get name with
+                | (KF (f, _), _) ->
+                    let s = la_search f.f_words (text_of_line x) (nat_of_int (int_of_string dd)) in
+                    String.trim ("A " ^ String.concat " " (List.map (fun (i, e) -> Printf.sprintf "%d:%d" (int_of_nat i) (int_of_nat e)) s))
+                | _ -> "? A: not an FstDictionary")
+           | _ -> "?")
       | 'W', [name] ->
           let d = snd (get (String.trim name)) in
           let ws = List.sort compare (List.map (fun w -> List.map int_of_n w) d.d_words) in
-          print_endline (String.trim ("W " ^ String.concat ", " (List.map (fun w -> String.concat " " (List.map string_of_int w)) ws)))
-      | _ -> print_endline "?"
-    with Failure m -> print_endline ("? " ^ m))
+          String.trim ("W " ^ String.concat ", " (List.map (fun w -> String.concat " " (List.map string_of_int w)) ws))
+      | _ -> "?"
+    with Failure m -> "? " ^ m
+
+(* ---------- units and their owners (the same computation in every worker) ---------- *)
+(* Attached: an A line — stateless, stays in the unit it occurs in *)
+type lk = Global | Def | Query of string | Wline | Attached
+let classify (l : string) : lk =
+  if String.length l < 1 then Global else
+  match l.[0] with
+  | 'M' | 'K' | 'F' | 'G' | 'X' -> Def
+  | 'W' -> Wline
+  | 'A' -> Attached
+  | 'C' | 'Z' | 'S' ->
+      (* the query text = second '|'-separated field *)
+      (match String.index_opt l '|' with
+       | None -> Query ""
+       | Some i ->
+           let j = match String.index_from_opt l (i + 1) '|' with Some j -> j | None -> String.length l in
+           Query (String.trim (String.sub l (i + 1) (j - i - 1))))
+  | _ -> Global
+
+let first_name (l : string) : string =
+  (* the dictionary a line is about: first word after the tag *)
+  match words (String.sub l 1 (String.length l - 1)) with n :: _ -> n | [] -> ""
+
+(* worker i of n over the channel ic; emit lineno result for every line this worker owns *)
+let run_worker (ic : in_channel) (i : int) (n : int) (nheavy : int) (emit : int -> string -> unit) : unit =
+  let lineno = ref 0 in
+  let prev = ref Global in            (* kind of the previous non-global line *)
+  let light = ref 0 and hv = ref 0 in (* unit counters *)
+  let owned = ref false in
+  let new_unit (is_heavy : bool) =
+    if is_heavy then begin owned := (!hv mod nheavy = i); incr hv end
+    else begin owned := (!light mod n = i); incr light end in
+  (try
+    while true do
+      let l = input_line ic in
+      (match classify l with
+       | Global ->
+           let r = process l false in
+           if i = 0 then emit !lineno r
+       | Def ->
+           (match !prev with Def | Wline -> () | _ -> new_unit (String.length l > 200_000));
+           prev := Def;
+           let r = process l !owned in
+           if !owned then emit !lineno r
+       | Attached -> if !owned then emit !lineno (process l true)
+       | Wline ->
+           (match !prev with Def | Wline -> () | _ -> new_unit (Hashtbl.mem heavy (first_name l)));
+           prev := Wline;
+           if !owned then emit !lineno (process l true)
+       | Query q ->
+           (match !prev with
+            | Query q' when q' = q -> ()
+            | _ -> new_unit (Hashtbl.mem heavy (first_name l)); Hashtbl.reset last; Hashtbl.reset last_model);
+           prev := Query q;
+           if !owned then emit !lineno (process l true));
+      incr lineno
+    done
+  with End_of_file -> ())
+
+let env_int name default =
+  match Sys.getenv_opt name with
+  | Some s -> (match int_of_string_opt (String.trim s) with Some v when v >= 1 -> v | _ -> default)
+  | None -> default
+
+let nproc () : int =
+  let f = Filename.temp_file "c15nproc" ".txt" in
+  let n = if Sys.command (Printf.sprintf "getconf _NPROCESSORS_ONLN > %s 2>/dev/null" (Filename.quote f)) = 0 then
+      (try let ic = open_in f in let v = int_of_string_opt (String.trim (input_line ic)) in close_in ic;
+           (match v with Some v -> v | None -> 1) with _ -> 1) else 1 in
+  (try Sys.remove f with _ -> ()); n
+
+let () =
+  let argv = Sys.argv in
+  let na = Array.length argv in
+  if na >= 6 && argv.(2) = "--worker" then begin
+    (* c15 <mode> --worker i n nheavy file *)
+    let i = int_of_string argv.(3) and n = int_of_string argv.(4) and nh = int_of_string argv.(5) in
+    let ic = open_in_bin argv.(6) in
+    run_worker ic i n nh (fun ln r -> print_string (string_of_int ln); print_char '\t'; print_endline r);
+    close_in ic
+  end else begin
+    let n = env_int "C15_SHARDS" (max 1 (min 12 (nproc ()))) in
+    if n = 1 then run_worker stdin 0 1 1 (fun _ r -> print_endline r)
+    else begin
+      let nh = min n (env_int "C15_HEAVY_SHARDS" (max 1 (2 * n / 3))) in
+      let base = Filename.temp_file "c15cases" "" in
+      let oc = open_out_bin base in
+      let buf = Bytes.create 65536 in
+      let total = ref 0 and last_nl = ref true in
+      (let continue = ref true in
+       while !continue do
+         let k = input stdin buf 0 65536 in
+         if k = 0 then continue := false else begin
+           output oc buf 0 k;
+           for j = 0 to k - 1 do if Bytes.get buf j = '\n' then incr total done;
+           last_nl := (Bytes.get buf (k - 1) = '\n')
+         end
+       done);
+      close_out oc;
+      if not !last_nl then incr total;
+      let mode = if na > 1 then argv.(1) else "release" in
+      let cmd = Buffer.create 1024 in
+      Buffer.add_string cmd "pids=\"\"; ";
+      for i = 0 to n - 1 do
+        Buffer.add_string cmd (Printf.sprintf "%s %s --worker %d %d %d %s > %s 2> %s & pids=\"$pids $!\"; "
+          (Filename.quote Sys.executable_name) (Filename.quote mode) i n nh (Filename.quote base)
+          (Filename.quote (Printf.sprintf "%s.out.%d" base i)) (Filename.quote (Printf.sprintf "%s.err.%d" base i)))
+      done;
+      Buffer.add_string cmd "rc=0; for p in $pids; do wait $p || rc=1; done; exit $rc";
+      let rc = Sys.command (Buffer.contents cmd) in
+      let cleanup () =
+        (try Sys.remove base with _ -> ());
+        for i = 0 to n - 1 do
+          (try Sys.remove (Printf.sprintf "%s.out.%d" base i) with _ -> ());
+          (try Sys.remove (Printf.sprintf "%s.err.%d" base i) with _ -> ())
+        done in
+      if rc <> 0 then begin
+        for i = 0 to n - 1 do
+          (try let ic = open_in (Printf.sprintf "%s.err.%d" base i) in
+               (try while true do prerr_endline (input_line ic) done with End_of_file -> ()); close_in ic with _ -> ())
+        done;
+        cleanup (); prerr_endline "c15 driver: a worker failed"; exit 2
+      end;
+      (* merge by line number *)
+      let ics = Array.init n (fun i -> open_in_bin (Printf.sprintf "%s.out.%d" base i)) in
+      let next ic = match input_line ic with
+        | l -> (match String.index_opt l '\t' with
+                | Some t -> Some (int_of_string (String.sub l 0 t), String.sub l (t + 1) (String.length l - t - 1))
+                | None -> failwith "c15 driver: malformed worker output")
+        | exception End_of_file -> None in
+      let heads = Array.map next ics in
+      let cur = ref 0 in
+      let out = Buffer.create (1 lsl 20) in
+      for ln = 0 to !total - 1 do
+        let found = ref false in
+        let tries = ref 0 in
+        while not !found && !tries < n do
+          (match heads.(!cur) with
+           | Some (k, r) when k = ln ->
+               Buffer.add_string out r; Buffer.add_char out '\n';
+               heads.(!cur) <- next ics.(!cur); found := true
+           | _ -> cur := (!cur + 1) mod n; incr tries)
+        done;
+        if not !found then begin cleanup (); prerr_endline (Printf.sprintf "c15 driver: no worker produced line %d" ln); exit 2 end;
+        if Buffer.length out > (1 lsl 20) then begin print_string (Buffer.contents out); Buffer.clear out end
+      done;
+      print_string (Buffer.contents out);
+      Array.iter close_in ics;
+      cleanup ()
+    end
+  end
